@@ -128,9 +128,9 @@ static void verify_all(const char *after)
 		}
 		if (n != mlen[l])
 			sim_fail(NULL, "TRAVERSAL", "after %s: list %d yields %d nodes, model has %d", after, l, n, mlen[l]);
-		if (list_empty(&lists[l]) != (mlen[l] == 0))
+		if (ONCE_V(1, list_empty(ARG(&lists[l]))) != (mlen[l] == 0))
 			sim_fail(NULL, "RETVAL", "after %s: list_empty(list %d) disagrees with the model", after, l);
-		if (id_of(list_peek(&lists[l])) != (mlen[l] ? mseq[l][0] : -1))
+		if (id_of(ONCE_V(1, list_peek(ARG(&lists[l])))) != (mlen[l] ? mseq[l][0] : -1))
 			sim_fail(NULL, "RETVAL", "after %s: list_peek(list %d) disagrees with the model", after, l);
 	}
 	for (int i = 0; i < NNODES; i++)
@@ -249,7 +249,7 @@ static void run(void)
 		case O_INSERT:
 			if ((id = pick_free()) < 0)
 				goto contains;
-			list_insert(&lists[l], &node[id]->link);
+			ONCE(2, list_insert(ARG(&lists[l]), ARG(&node[id]->link)));
 			m_insert_at(l, mlen[l], id);
 			invalidate(l, -1);
 			note_insert(l, id, true, mlen[l] == 1);
@@ -258,7 +258,7 @@ static void run(void)
 		case O_PUSH:
 			if ((id = pick_free()) < 0)
 				goto contains;
-			list_push(&lists[l], &node[id]->link);
+			ONCE(2, list_push(ARG(&lists[l]), ARG(&node[id]->link)));
 			m_insert_at(l, 0, id);
 			invalidate(l, -1);
 			note_insert(l, id, mlen[l] == 1, true);
@@ -268,7 +268,7 @@ static void run(void)
 			if ((id = pick_free()) < 0 || !m_sorted(l))
 				goto contains;
 			node[id]->key = sim_choose(4);
-			list_insert_sorted(&lists[l], &node[id]->link, keycmp);
+			ONCE(3, list_insert_sorted(ARG(&lists[l]), ARG(&node[id]->link), ARG(keycmp)));
 			for (idx = 0; idx < mlen[l] && node[mseq[l][idx]]->key <= node[id]->key; idx++)
 				;
 			if (idx > 0 && node[mseq[l][idx - 1]]->key == node[id]->key)
@@ -281,7 +281,7 @@ static void run(void)
 			sim_ev("sorted", l, id, node[id]->key);
 			break;
 		case O_EXTRACT:
-			got = id_of(list_extract(&lists[l]));
+			got = id_of(ONCE_V(1, list_extract(ARG(&lists[l]))));
 			want = mlen[l] ? mseq[l][0] : -1;
 			if (!mlen[l])
 				sim_probe(P_EXTRACT_EMPTY);
@@ -296,7 +296,7 @@ static void run(void)
 			break;
 		case O_REMOVE:
 			id = pick_any(l);
-			b = list_remove(&lists[l], &node[id]->link);
+			b = ONCE_V(2, list_remove(ARG(&lists[l]), ARG(&node[id]->link)));
 			idx = m_find(l, id);
 			if (b != (idx >= 0))
 				sim_fail(NULL, "RETVAL", "list_remove(list %d, node %d) returned %d, model %d", l, id, b, idx >= 0);
@@ -310,7 +310,7 @@ static void run(void)
 		contains:
 		case O_CONTAINS:
 			id = pick_any(l);
-			b = list_contains(&lists[l], &node[id]->link, NULL);
+			b = ONCE_V(3, list_contains(ARG(&lists[l]), ARG(&node[id]->link), ARG(NULL)));
 			if (b != (m_find(l, id) >= 0))
 				sim_fail(NULL, "RETVAL", "list_contains(list %d, node %d) returned %d", l, id, b);
 			sim_ev("contains", l, id, b);
@@ -318,7 +318,7 @@ static void run(void)
 			break;
 		case O_CONTAINS_IT:
 			id = pick_any(l);
-			b = list_contains(&lists[l], &node[id]->link, &iters[itn]);
+			b = ONCE_V(3, list_contains(ARG(&lists[l]), ARG(&node[id]->link), ARG(&iters[itn])));
 			idx = m_find(l, id);
 			if (b != (idx >= 0))
 				sim_fail(NULL, "RETVAL", "list_contains(list %d, node %d, iter) returned %d", l, id, b);
@@ -328,7 +328,7 @@ static void run(void)
 			sim_ev("contains_it", l, id, b);
 			break;
 		case O_ITERATE:
-			got = id_of(list_iterate(&lists[l], &iters[itn]));
+			got = id_of(ONCE_V(2, list_iterate(ARG(&lists[l]), ARG(&iters[itn]))));
 			want = mlen[l] ? mseq[l][0] : -1;
 			if (got != want)
 				sim_fail(NULL, "RETVAL", "list_iterate(list %d) returned node %d, model %d", l, got, want);
@@ -341,7 +341,7 @@ static void run(void)
 			if (!mit[itn].valid)
 				goto contains;
 			l = mit[itn].list;
-			got = id_of(list_iterator_next(&iters[itn]));
+			got = id_of(ONCE_V(1, list_iterator_next(ARG(&iters[itn]))));
 			if (mit[itn].idx < mlen[l])
 				mit[itn].idx++;
 			else
@@ -358,7 +358,7 @@ static void run(void)
 			l = mit[itn].list;
 			if (sorted_only && l == 0)
 				goto contains;
-			list_iterator_insert(&iters[itn], &node[id]->link);
+			ONCE(2, list_iterator_insert(ARG(&iters[itn]), ARG(&node[id]->link)));
 			if (mit[itn].idx == mlen[l])
 				sim_probe(P_ITER_INSERT_END);
 			m_insert_at(l, mit[itn].idx, id);
@@ -370,7 +370,7 @@ static void run(void)
 			if (!mit[itn].valid || mit[itn].idx >= mlen[mit[itn].list])
 				goto contains;	/* scope: not past the end */
 			l = mit[itn].list;
-			got = id_of(list_iterator_remove(&iters[itn]));
+			got = id_of(ONCE_V(1, list_iterator_remove(ARG(&iters[itn]))));
 			if (mit[itn].idx == mlen[l] - 1)
 				sim_probe(P_ITER_REMOVE_TAIL);
 			note_remove(l, mit[itn].idx, mlen[l]);
